@@ -275,7 +275,13 @@ Section Order.
   Qed.
 
   Lemma guard_perm st st' g : perm_equiv st st' -> guard_true st g = guard_true st' g.
-  Proof. intros (_ & _ & Hi & Hv & _). destruct g; cbn; [rewrite Hi|rewrite Hv]; reflexivity. Qed.
+  Proof.
+    intros Hpe. pose proof Hpe as (_ & _ & Hi & Hv & _). destruct g as [p| |l]; cbn; [rewrite Hi|rewrite Hv|]; try reflexivity.
+    pose proof (get_list_perm st st' l Hpe) as Hp.
+    destruct (get_list st l) as [|a la], (get_list st' l) as [|b lb]; try reflexivity.
+    - apply Permutation_nil in Hp. discriminate.
+    - apply Permutation_sym, Permutation_nil in Hp. discriminate.
+  Qed.
 
   Lemma item_full_perm st st' it : perm_equiv st st' -> item_full st it -> item_full st' it.
   Proof.
@@ -654,7 +660,7 @@ Section SkewPartial.
     split.
     - intros H si sj Hi Hj Hu. apply (Hcond si sj Hi Hj).
       exact (H _ (or_introl eq_refl) si sj Hi Hj Hu).
-    - intros H it [<-|[<-|[]]]; cbn [item_full]; [|exact I].
+    - intros H it [<-|[<-|[]]]; cbn [item_full]; [|intros _; exact I].
       intros si sj Hi Hj Hu. apply (Hcond si sj Hi Hj). apply H; assumption.
   Qed.
 End SkewPartial.
@@ -690,7 +696,7 @@ Section LinearAdjoint.
     split.
     - intros H si sj Hi Hj Hu. apply (Hcond si sj Hi Hj).
       exact (H _ (or_introl eq_refl) si sj Hi Hj Hu).
-    - intros H it [<-|[<-|[<-|[]]]]; cbn [item_full]; try exact I.
+    - intros H it [<-|[<-|[<-|[]]]]; cbn [item_full]; try (intros _; exact I).
       intros si sj Hi Hj Hu. apply (Hcond si sj Hi Hj). apply H; assumption.
   Qed.
 End LinearAdjoint.
@@ -742,3 +748,63 @@ Section StationaryData.
     - intros H si sj Hi Hj Hu. apply filter_In in Hi as [Hi Hz]. apply H; assumption.
   Qed.
 End StationaryData.
+
+(** * no empty LMI (the linear operator classes guard their LMI by [if N > 0], /repo 818e4b8) *)
+(** every LMI statement of the item is guarded by the non-emptiness of the very list it ranges over *)
+Fixpoint lmi_guarded (it : plan_item) : bool :=
+  match it with
+  | LMI _ _ => false
+  | Guarded (GNonEmpty l) (LMI l' _) => lst_eqb l l'
+  | Guarded _ it' => lmi_guarded it'
+  | _ => true
+  end.
+
+(** the guarded LMI statement: the matrix over the samples is generated iff there is at least one sample *)
+Theorem guarded_lmi_iff st l entry m :
+  In m (item_lmis st (Guarded (GNonEmpty l) (LMI l entry))) <->
+  get_list st l <> [] /\ m = map (fun si => map (fun sj => instX st entry si sj) (get_list st l)) (get_list st l).
+Proof.
+  cbn [item_lmis guard_true]. destruct (get_list st l) as [|a la] eqn:E.
+  - split; [intros []|intros [H _]; congruence].
+  - cbn [In]. split.
+    + intros [<-|[]]. split; [discriminate|reflexivity].
+    + intros [_ ->]. left. reflexivity.
+Qed.
+
+Lemma lmi_guarded_src st it m : lmi_guarded it = true -> item_lmi_src st it m -> m <> [].
+Proof.
+  induction it as [l1 l2 cname f sym|l cname f|g it IH| |l entry|cprefix f]; cbn [item_lmi_src];
+    try solve [intros _ []].
+  - intros Hg [Hgt Hsrc].
+    destruct g as [p| |l]; cbn [lmi_guarded] in Hg; try (apply IH; assumption).
+    destruct it as [| | | |l' entry|]; try (apply IH; assumption).
+    apply lst_eqb_eq in Hg. subst l'. cbn [item_lmi_src] in Hsrc. cbn [guard_true] in Hgt. subst m.
+    destruct (get_list st l); [discriminate|]. cbn. discriminate.
+  - cbn [lmi_guarded]. discriminate.
+Qed.
+
+(** a plan all of whose LMI statements are guarded never generates a 0 x 0 LMI *)
+Theorem no_empty_lmi plan st m :
+  auto_head_only plan = true -> forallb lmi_guarded plan = true ->
+  In m (g_lmis (run_plan plan st)) -> m <> [].
+Proof.
+  intros Hh Hg Hm. apply (run_plan_lmis_spec_simple plan st m Hh) in Hm as (it & Hin & Hsrc).
+  rewrite forallb_forall in Hg. exact (lmi_guarded_src _ it m (Hg it Hin) Hsrc).
+Qed.
+
+Lemma linear_classes_lmis_guarded :
+  forallb lmi_guarded plan_LinearOperator = true /\
+  forallb lmi_guarded plan_SymmetricLinearOperator = true /\
+  forallb lmi_guarded plan_SkewSymmetricLinearOperator = true.
+Proof. repeat split; vm_compute; reflexivity. Qed.
+
+(** LinearOperator / SymmetricLinearOperator / SkewSymmetricLinearOperator: whatever was recorded (nothing at
+    all, samples of the operator only, of its transpose only), no generated LMI is empty *)
+Theorem linear_classes_no_empty_lmi st m :
+  (In m (g_lmis (run_plan plan_LinearOperator st)) -> m <> []) /\
+  (In m (g_lmis (run_plan plan_SymmetricLinearOperator st)) -> m <> []) /\
+  (In m (g_lmis (run_plan plan_SkewSymmetricLinearOperator st)) -> m <> []).
+Proof.
+  destruct linear_classes_lmis_guarded as (H1 & H2 & H3).
+  repeat split; apply no_empty_lmi; try assumption; vm_compute; reflexivity.
+Qed.
